@@ -244,11 +244,7 @@ pub struct FlowSetHeader {
 #[derive(Debug, PartialEq, Clone, Serialize, Nom)]
 #[nom(ExtraArgs(parser: &mut IPFixParser, set_id: u16))]
 pub struct Data {
-    #[nom(
-        PreExec = "let template = parser.templates.get(&set_id).cloned().unwrap_or_default();",
-        ErrorIf = "template.get_fields().is_empty() ",
-        Parse = "{ |i| FieldParser::parse::<Template>(i, template) }"
-    )]
+    #[nom(Parse = "{ |i| FieldParser::parse::<Template>(i, parser.templates.get(&set_id)) }")]
     pub fields: Vec<BTreeMap<usize, (IPFixField, FieldValue)>>,
     #[serde(skip_serializing)]
     pub padding: Vec<u8>,
@@ -258,9 +254,7 @@ pub struct Data {
 #[nom(ExtraArgs(parser: &mut IPFixParser, set_id: u16))]
 pub struct OptionsData {
     #[nom(
-        PreExec = "let template = parser.options_templates.get(&set_id).cloned().unwrap_or_default();",
-        ErrorIf = "template.get_fields().is_empty() ",
-        Parse = "{ |i| FieldParser::parse::<OptionsTemplate>(i, template) }"
+        Parse = "{ |i| FieldParser::parse::<OptionsTemplate>(i, parser.options_templates.get(&set_id)) }"
     )]
     pub fields: Vec<BTreeMap<usize, (IPFixField, FieldValue)>>,
     #[serde(skip_serializing)]
@@ -342,10 +336,20 @@ impl FieldParser {
     /// Takes a byte stream and a cached template.
     /// Fields get matched to static types.
     /// Returns BTree of IPFix Types & Fields or IResult Error.
-    fn parse<T: CommonTemplate>(
-        i: &[u8],
-        template: T,
-    ) -> IResult<&[u8], Vec<BTreeMap<usize, IPFixFieldPair>>> {
+    fn parse<'a, T: CommonTemplate>(
+        i: &'a [u8],
+        template: Option<&T>,
+    ) -> IResult<&'a [u8], Vec<BTreeMap<usize, IPFixFieldPair>>> {
+        // If there are no fields to parse, return an error.
+        let template = match template {
+            Some(template) if !template.get_fields().is_empty() => template,
+            _ => {
+                return Err(nom::Err::Error(nom::error::Error::new(
+                    i,
+                    nom::error::ErrorKind::Verify,
+                )));
+            }
+        };
         // Smallest possible record: a variable-length field takes at least its length octet.
         let min_record_len: usize = template
             .get_fields()
